@@ -88,13 +88,13 @@ func setBridger(c claim, b string) {
 	elem(c).FieldByName("BridgerAddress").SetString(b)
 }
 
-// attTable: attestations of one event nonce on the real store: hash -> (voter indices, observed)
+// attTable: attestations of one event nonce on the real store, by STORE KEY: hash part of the key -> (voter indices, observed)
 func (e *keeperEnv) attTable(ctx sdk.Context, nonce uint64) string {
 	var rows []string
-	e.k.IterateAttestationAndClaim(ctx, func(att *ct.Attestation, c ct.ExternalClaim) bool {
-		if c.GetEventNonce() != nonce {
-			return false
-		}
+	prefix := ct.GetAttestationKey(nonce, nil)
+	for _, kv := range hx.RawPrefix(ctx, e.s.App.GetKey(keeperChain), prefix) {
+		var att ct.Attestation
+		e.s.App.AppCodec().MustUnmarshal(kv[1], &att)
 		var vs []string
 		for _, v := range att.Votes {
 			if i, ok := e.index[v]; ok {
@@ -103,9 +103,12 @@ func (e *keeperEnv) attTable(ctx sdk.Context, nonce uint64) string {
 				vs = append(vs, "?")
 			}
 		}
-		rows = append(rows, fmt.Sprintf("%s:%s:%s", hex.EncodeToString(c.ClaimHash())[:16], strings.Join(vs, "."), b01(att.Observed)))
-		return false
-	})
+		h := hex.EncodeToString(kv[0][len(prefix):])
+		if len(h) > 16 {
+			h = h[:16]
+		}
+		rows = append(rows, fmt.Sprintf("%s:%s:%s", h, strings.Join(vs, "."), b01(att.Observed)))
+	}
 	sort.Strings(rows)
 	if len(rows) == 0 {
 		return "-"
